@@ -27,7 +27,7 @@ ASSUMPTIONS = [
 ]
 KINDS = ["inst", "operand", "operand", "genreg", "genreg", "indreg", "stackreg", "basereg"]
 MUTATORS = ["none", "none", "none", "prefix-ext", "prefix-ext", "other-member", "wrong-width", "non-member", "swap-names", "last-operand", "unrelated-op", "def-empty", "def-non-member", "def-wrong-width", "case-variant"]
-FLOORS = {"kind=inst": 0.08, "kind=operand": 0.12, "kind=regfam": 0.16, "mut=prefix-ext": 0.06, "expect=found": 0.25, "near-miss": 0.3, "kind=deref-field": 0.06, "kind=deref-operator-capture": 0.04, "kind=ranged-occurrence-before-definition": 0.03, "kind=ranged-user-after-rebinding": 0.008, "deref-operator-capture=register-family": 0.01, "kind=many-names": 0.01, "kind=names-differ-in-case-only": 0.08, "deref-keys=permuted": 0.04}
+FLOORS = {"kind=inst": 0.08, "kind=operand": 0.12, "kind=regfam": 0.16, "mut=prefix-ext": 0.06, "expect=found": 0.25, "near-miss": 0.3, "kind=deref-field": 0.06, "kind=deref-operator-capture": 0.04, "kind=ranged-occurrence-before-definition": 0.03, "kind=ranged-user-after-rebinding": 0.008, "deref-operator-capture=register-family": 0.01, "kind=many-names": 0.01, "mut=inst-extra-operand": 0.008, "mut=inst-operand-removed": 0.003, "kind=names-differ-in-case-only": 0.08, "deref-keys=permuted": 0.04}
 
 # operands with prefix / extension relatives (att, norm)
 RELATED = [
@@ -156,7 +156,8 @@ def cases(draw):
             node = n["name"]
             if not first and draw(st.integers(0, 3)) == 0:
                 node = {"$or": [n["name"], "zz"]} if draw(st.booleans()) else {"$or": [{"qq": ["zz"]}, n["name"]]}
-            spine.append([node, [list(n["bind"])], None])
+            # (a copy of its own per occurrence: the mutators below change ONE later occurrence in place)
+            spine.append([node, [[n["bind"][0], list(n["bind"][1]), list(n["bind"][2])]], None])
             if not first:
                 sites.append((len(spine) - 1, None, qi))
             k += 1
@@ -253,7 +254,7 @@ def cases(draw):
                     inst[2][oi] = new_
                     applied = "case-variant"
         elif n["kind"] == "inst":
-            if mut in ("other-member", "non-member") and len(inst[1]) < 4 and " " not in "".join(inst[1]):
+            if (mut in ("other-member", "non-member") or (mut in ("last-operand", "unrelated-op", "wrong-width", "prefix-ext") and draw(st.booleans()))) and len(inst[1]) < 4 and " " not in "".join(inst[1]):
                 # the later instruction is the bound one plus ONE MORE operand at the end (`imul %rbx` / `imul %rbx,%rax`): not the
                 # same text; or one operand fewer
                 o = draw(st.sampled_from(OPERANDS))
